@@ -242,6 +242,7 @@ type Engine struct {
 	forkSites map[string]int
 	varSign   map[string]sign
 	pcSet     map[string]bool
+	roundMemo map[string]*Term // rounding results by operand terms (functional consistency)
 	cur      *frame // innermost frame (diagnostics only)
 }
 
@@ -330,6 +331,7 @@ func (e *Engine) RunPath(spec *HarnessSpec, res *HarnessResult, prefix []bool) (
 	e.refine = nil
 	e.varSign = map[string]sign{}
 	e.pcSet = map[string]bool{}
+	e.roundMemo = map[string]*Term{}
 	e.declSet = map[string]bool{}
 	e.steps, e.covers, e.obs, e.newWork, e.blobs, e.world = 0, nil, nil, nil, nil, nil
 	e.obsTerms = map[string]*Term{}
@@ -846,6 +848,13 @@ func (e *Engine) onCall(caller *frame, callpos token.Pos, fn *ssa.Function, args
 		}
 		if e.P.SkipFuncs[fn.String()] {
 			return zeroResults(fn), true
+		}
+		// text rendering of generated protobuf messages (reflection-driven): opaque placeholder
+		if name == "String" && fn.Signature.Params().Len() == 0 && fn.Signature.Results().Len() == 1 &&
+			strings.HasSuffix(fn.Prog.Fset.Position(fn.Pos()).Filename, ".pb.go") && fn.Signature.Recv() != nil {
+			if _, isPtr := fn.Signature.Recv().Type().(*types.Pointer); isPtr {
+				return "<proto message>", true
+			}
 		}
 	}
 	if e.spec != nil && e.spec.Summaries != nil {
